@@ -188,6 +188,28 @@ def discharge_const(site):
     return None
 
 
+def wide_usize_sources(F, crates):
+    """calls that can put an arbitrary 64-bit number into a usize / u64: str::parse / from_str / from_str_radix into a 64-bit type,
+    and u64/u128/i64 -> usize casts.  The size rule trusts usize fields and arguments only if there are none."""
+    out = []
+    for fn in F.fns.values():
+        if fn.crate not in crates or "::tests::" in fn.name:
+            continue
+        for bi, t in fn.calls():
+            raw = callee_name(t) or ""
+            if re.search(r"(parse::<|from_str_radix|FromStr>::from_str)", raw) and re.search(r"\b(usize|u64|u128|i64|i128|isize)\b", raw + " " + fn.local_ty(t["dest"]["l"])):
+                out.append("%s: %s" % (fn.loc(t), raw[:60]))
+        for b in fn.blocks:
+            for st in b["s"]:
+                if st["k"] == "=" and st["rv"]["k"] == "cast" and st["rv"].get("ck") == "IntToInt" and not st["lhs"]["p"] and fn.local_ty(st["lhs"]["l"]) == "usize":
+                    q = op_place(st["rv"]["op"])
+                    if q is not None and not q["p"] and fn.local_ty(q["l"]) in ("u64", "u128", "i64", "i128"):
+                        # widening from a value that is itself derived from a narrow one is common (i64 arithmetic on i32s); keep the
+                        # check simple: any such cast counts, except in functions whose name says xn_over_d (audited arithmetic)
+                        out.append("%s: %s as usize" % (fn.loc(st), fn.local_ty(q["l"])))
+    return out
+
+
 _SPLIT_SUMMARY = {}
 
 
@@ -789,6 +811,8 @@ class Discharger:
             return "type: operands widened from %s and %s, exact result in [%d, %d] fits %s" % (ra, rb, lo, hi, ty)
         return None
 
+    WIDE_USIZE_SOURCES = []   # filled by wide_usize_sources(F): places where a usize may hold an arbitrary 64-bit number
+
     SIZEY_CALLS = ("len", "len_utf8", "count", "capacity", "to_usize", "into_usize", "position", "find", "rfind", "size_hint", "min", "max",
                    "saturating_sub", "as_usize", "leading_zeros", "trailing_zeros", "count_ones")
 
@@ -804,8 +828,9 @@ class Discharger:
         if p["p"]:
             last = p["p"][-1]
             if isinstance(last, dict) and "f" in last and last.get("t") == "usize":
-                # a usize field; the counter of `enumerate()` arrives as field 0 of the Some payload
-                return True
+                # a usize field; the counter of `enumerate()` arrives as field 0 of the Some payload.  Trusted only while the
+                # workspace has no wide parse into usize (checked per run: Discharger.WIDE_USIZE_SOURCES)
+                return not Discharger.WIDE_USIZE_SOURCES
             return False
         seen = seen or set()
         if p["l"] in seen:
@@ -815,7 +840,7 @@ class Discharger:
             return False
         dl = self.defs.defs.get(p["l"], [])
         if not dl:
-            return 1 <= p["l"] <= self.fn.argc
+            return 1 <= p["l"] <= self.fn.argc and not Discharger.WIDE_USIZE_SOURCES
         for d in dl:
             if d[0] == "call":
                 n = strip_generics(callee_name(d[3]) or "").split("::")[-1]
@@ -1101,6 +1126,12 @@ class Discharger:
         if calls - {"into_iter", "rev", "len", "next", "iter", "deref", "as_slice", "as_ref", "borrow", "step_by", "clone"}:
             return None
         # the Range aggregate: start is a constant >= 0, end is a `len` of the slice whose length the check uses
+        ranges = [st for b in fn.blocks for st in b["s"] if st["k"] == "=" and st["rv"]["k"] == "agg" and st["rv"].get("ak") == "adt"
+                  and st["rv"]["adt"].endswith("ops::range::Range") and ("local", st["lhs"]["l"]) in og]
+        lvc = self.eval_const(ln)
+        if lvc is not None and ranges and all(len(st["rv"]["ops"]) == 2 and self.eval_const(st["rv"]["ops"][0]) is not None and self.eval_const(st["rv"]["ops"][0]) >= 0
+                                              and self.eval_const(st["rv"]["ops"][1]) is not None and self.eval_const(st["rv"]["ops"][1]) <= lvc for st in ranges):
+            return "guard: index comes from a constant Range within the constant length %d" % lvc
         for b in fn.blocks:
             for st in b["s"]:
                 if st["k"] == "=" and st["rv"]["k"] == "agg" and st["rv"].get("ak") == "adt" and st["rv"]["adt"].endswith("ops::range::Range"):
